@@ -37,8 +37,18 @@ type lowSample struct {
 	S interface{} `json:"s"`
 }
 
+// Current is the collector created last in this process (one test function
+// = one process = one collector); shared helpers count their classes there.
+var Current *Collector
+
 // New creates a collector.
 func New(prop, part, rule string) *Collector {
+	c := newCollector(prop, part, rule)
+	Current = c
+	return c
+}
+
+func newCollector(prop, part, rule string) *Collector {
 	return &Collector{Prop: prop, Part: part, Rule: rule, start: time.Now(), nt: map[uint64]struct{}{},
 		classes: map[string]int64{}, excluded: map[string]int64{}, extra: map[string]interface{}{}, known: map[string]string{}}
 }
